@@ -81,6 +81,7 @@ class SnTracer:
         self.cms_added = []
         self.cbs = {'P': [], 'Q': []}
         self.count = {'P': 0, 'Q': 0}
+        self.tcount = 0          # periodic measurements begun (entries ever appended to the time series)
         self.pcalls, self.qcalls = [], []
         self.psense_times = 0.0
         self.first = False
@@ -112,9 +113,9 @@ class SnTracer:
         # the sensor handed to the callback is the right one and its series are bounded and aligned right now
         probes = which.probes
         n0 = len(which.data[probes[0]])
-        ok = all(len(which.data[p]) == n0 for p in probes) and n0 <= which._data_capacity
+        ok = all(len(which.data[p]) == n0 for p in probes) and n0 == min(self.count[name], which._data_capacity)
         if 'time' in which.data:
-            ok = ok and len(which.data['time']) == n0
+            ok = ok and len(which.data['time']) == min(self.tcount, which._data_capacity)
         ent = [cid, bool(sensor is which and ok), self.t(time), _val(copy.deepcopy(list(data)))]
         (self.pcalls if name == 'P' else self.qcalls).append(ent)
 
@@ -128,7 +129,7 @@ class SnTracer:
     def proj_sensor(self, name, s):
         probes = s.probes
         cap = INF if s._data_capacity == float('inf') else int(s._data_capacity)
-        d = {'cap': cap, 'count': self.count[name],
+        d = {'cap': cap, 'count': self.count[name], 'tcount': self.tcount if name == 'P' else 0,
              'tser': [self.t(v) for v in s.data.get('time', [])],
              'ser': [_val(s.data[p]) for p in probes],
              'last': _val(s.last_sense), 'cbs': list(self.cbs[name]), 'ncb': len(s._on_sense)}
@@ -166,6 +167,7 @@ class SnTracer:
             if e is not None and e.asset_id == self.P.id and not e.cancelled \
                     and e.event_type == self.sim.EventType.SENSOR:
                 kind = 'psense'
+                self.tcount += 1
                 self.psense_times = self.psense_times + self.iv_float      # k-fold repeated addition
                 exact = bool(e.time == self.psense_times)
             try:
@@ -207,6 +209,11 @@ class SnTracer:
                 self.cms_added.append(op['s'])
                 self.cbs[op['s']].append(9)
             self.log({'op': 'cms', 's': op['s'], 'pcalls': [], 'qcalls': []})
+        elif o == 'msense':
+            if self.P.env is None:      # sense() needs the environment: only once the simulation has started
+                return
+            self.P.sense()
+            self.log({'op': 'msense', 'pcalls': self.pcalls, 'qcalls': []})
         elif o == 'run':
             if self.P.env is None:
                 self.first = True
@@ -252,7 +259,9 @@ def run_random(tid, seed, n):
                 ops.append({'op': 'addcb', 's': s, 'id': ids[s].pop(0)})
         elif x < 0.5:
             ops.append({'op': 'cms', 's': rng.choice('PQ')})
-        elif x < 0.58:
+        elif x < 0.56:
+            ops.append({'op': 'msense'})
+        elif x < 0.63:
             ops.append({'op': 'fail', 'dt': rng.choice([0, 1, 2, 3]), 'len': rng.choice([1, 2, 4])})
         else:
             ops.append({'op': 'run', 'd': rng.choice([0, 1, 2, 3, 5, 8])})
